@@ -24,7 +24,7 @@ func init() {
 		Title:     "Overlay worlds shadow the base consistently",
 		Technique: "reference-model monitor: model union with upper precedence versus ingest.NewOverlayWorld, full conformance check",
 		Rule: "case = (shape of the ID sets: overlapping / disjoint / nested either way / three layers, generated base, upper = re-tagged versions of base features " +
-			"(with the features they depend on) and/or new features); distinct = shape + both feature sets; non-trivial = at least one shared ID whose upper version has different tags",
+			"(with the features they depend on) and/or new features; half of the bases also hold features whose ids differ from another feature's only in the namespace; one case in three repeats the two-layer conformance over a mutable upper layer that is empty at first, half filled, then full); distinct = shape + both feature sets; non-trivial = at least one shared ID whose upper version has different tags",
 		Assumptions: []string{"upper versions keep the geometry of the base version (each layer is a self-contained valid world)"},
 		Quick:       400, Thorough: 40000,
 		Required: []string{"ids_differing_only_in_namespace", "growing_upper_layer", "shape_overlapping", "shape_disjoint", "shape_upper-subset-of-base", "shape_upper-superset-of-base", "shape_three-layers",
